@@ -1,0 +1,28 @@
+package skiplist
+
+// Yield-site identifiers used by the simulation hooks (build tag verif).
+// They are plain constants so that call sites compile with the tag on or off.
+const (
+	SiteGetNext = iota + 1
+	SiteDcasNext
+	SiteNewLevelCAS
+	SiteHelpDeleteStats
+	SiteInsertStats
+	SiteSoftDeleteStats
+
+	SiteAcqLoad
+	SiteAcqInc
+	SiteAcqBackoff
+	SiteRelDec
+	SiteRelLatch
+	SiteRelInsert
+	SiteRelTryLock
+	SiteRelTryUnlock
+	SiteCleanupIter
+	SiteCleanupCallb
+	SiteCleanupDelete
+	SiteFlushSwap
+	SiteFlushAdd
+
+	SiteSkiplistMax
+)
